@@ -9,28 +9,88 @@ fn toks(e: &syn::Expr) -> String {
     quote::ToTokens::to_token_stream(e).to_string().replace(' ', "")
 }
 
-#[derive(Default)]
-struct Bins {
-    v: Vec<(String, String, String)>, // (left, op, right) with spaces removed
+/// functions of `impl ReplicationFetcher` the translator knows; a call `self.f(..)` to any *other* private fn of the
+/// file (a helper extracted by a refactoring) is followed one level deep
+const KNOWN_FNS: &[&str] = &[
+    "new",
+    "set_replication_distance_range",
+    "add_keys",
+    "set_farthest_on_full",
+    "notify_about_new_put",
+    "notify_fetch_early_completed",
+    "next_keys_to_fetch",
+    "prune_expired_keys_and_slow_nodes",
+    "remove_stored_keys",
+    "send_event",
+];
+
+fn helper_fn<'a>(file: &'a syn::File, name: &str) -> Option<&'a syn::ImplItemFn> {
+    if KNOWN_FNS.contains(&name) {
+        return None;
+    }
+    impl_fn(file, "ReplicationFetcher", None, name).ok()
 }
-impl<'ast> Visit<'ast> for Bins {
-    fn visit_expr_binary(&mut self, b: &'ast syn::ExprBinary) {
-        self.v.push((
-            toks(&b.left),
-            quote::ToTokens::to_token_stream(&b.op).to_string().replace(' ', ""),
-            toks(&b.right),
-        ));
-        syn::visit::visit_expr_binary(self, b);
+
+/// `self.name(..)`
+fn self_call(m: &syn::ExprMethodCall) -> Option<String> {
+    if toks(&m.receiver) == "self" {
+        Some(m.method.to_string())
+    } else {
+        None
     }
 }
 
-fn bins(f: &syn::ImplItemFn) -> Vec<(String, String, String)> {
-    let mut b = Bins::default();
+fn flip(op: &str) -> String {
+    match op {
+        "<" => ">",
+        "<=" => ">=",
+        ">" => "<",
+        ">=" => "<=",
+        o => o,
+    }
+    .to_string()
+}
+
+fn is_cmp(op: &str) -> bool {
+    ["<", "<=", ">", ">=", "==", "!="].contains(&op)
+}
+
+/// all comparisons of a function body (left, op, right; spaces removed), following extracted helpers one level
+struct Bins<'f> {
+    file: &'f syn::File,
+    depth: u32,
+    v: Vec<(String, String, String)>,
+}
+impl<'ast, 'f> Visit<'ast> for Bins<'f> {
+    fn visit_expr_binary(&mut self, b: &'ast syn::ExprBinary) {
+        let op = quote::ToTokens::to_token_stream(&b.op).to_string().replace(' ', "");
+        if is_cmp(&op) {
+            self.v.push((toks(&b.left), op, toks(&b.right)));
+        }
+        syn::visit::visit_expr_binary(self, b);
+    }
+    fn visit_expr_method_call(&mut self, m: &'ast syn::ExprMethodCall) {
+        if self.depth == 0 {
+            if let Some(h) = self_call(m).and_then(|n| helper_fn(self.file, &n)) {
+                self.depth += 1;
+                let mut inner = Bins { file: self.file, depth: 1, v: vec![] };
+                inner.visit_block(&h.block);
+                self.v.extend(inner.v);
+                self.depth -= 1;
+            }
+        }
+        syn::visit::visit_expr_method_call(self, m);
+    }
+}
+
+fn bins(file: &syn::File, f: &syn::ImplItemFn) -> Vec<(String, String, String)> {
+    let mut b = Bins { file, depth: 0, v: vec![] };
     b.visit_block(&f.block);
     b.v
 }
 
-/// the unique comparison in `f` whose sides satisfy `l`/`r`
+/// the comparisons having `l` on one side and `r` on the other, normalised so that the `l` side is on the left
+/// (`b > a` is read as `a < b`); exactly `expect_n` must exist and agree on the operator
 fn find_cmp(
     fname: &str,
     v: &[(String, String, String)],
@@ -38,18 +98,292 @@ fn find_cmp(
     r: &dyn Fn(&str) -> bool,
     expect_n: usize,
 ) -> Result<String, String> {
-    let hits: Vec<&(String, String, String)> = v
-        .iter()
-        .filter(|(a, op, b)| l(a) && r(b) && ["<", "<=", ">", ">=", "==", "!="].contains(&op.as_str()))
-        .collect();
-    if hits.len() != expect_n {
-        return Err(format!("{fname}: expected {expect_n} comparison(s) of the searched shape, found {}", hits.len()));
+    let mut ops = vec![];
+    for (a, op, b) in v {
+        if l(a) && r(b) {
+            ops.push(op.clone());
+        } else if l(b) && r(a) {
+            ops.push(flip(op));
+        }
     }
-    let op = hits[0].1.clone();
-    if hits.iter().any(|h| h.1 != op) {
+    if ops.len() != expect_n {
+        return Err(format!("{fname}: expected {expect_n} comparison(s) of the searched shape, found {}", ops.len()));
+    }
+    if ops.iter().any(|o| o != &ops[0]) {
         return Err(format!("{fname}: the {expect_n} comparisons of the searched shape use different operators"));
     }
-    Ok(op)
+    Ok(ops[0].clone())
+}
+
+/// `x` or `*x` or `&x` for an identifier `x`
+fn is_ident_like(s: &str) -> bool {
+    let t = s.trim_start_matches(['*', '&']);
+    !t.is_empty() && t.chars().all(|c| c.is_alphanumeric() || c == '_') && !t.chars().next().unwrap().is_numeric()
+}
+
+fn bare(s: &str) -> &str {
+    s.trim_start_matches(['*', '&'])
+}
+
+/// identifiers bound by `if let Some(x) = <scrutinee>` / `let Some(x) = <scrutinee> else` / `match <scrutinee> { Some(x) => .. }`
+struct SomeBinders {
+    scrutinee: String,
+    names: Vec<String>,
+}
+impl SomeBinders {
+    fn from_pat(&mut self, p: &syn::Pat) {
+        let t = quote::ToTokens::to_token_stream(p).to_string().replace(' ', "");
+        if let Some(inner) = t.strip_prefix("Some(").and_then(|x| x.strip_suffix(')')) {
+            let inner = inner.trim_start_matches("ref").trim_start_matches("mut");
+            if is_ident_like(inner) {
+                self.names.push(inner.to_string());
+            }
+        }
+    }
+}
+impl<'ast> Visit<'ast> for SomeBinders {
+    fn visit_expr_let(&mut self, l: &'ast syn::ExprLet) {
+        if toks(&l.expr) == self.scrutinee {
+            self.from_pat(&l.pat);
+        }
+        syn::visit::visit_expr_let(self, l);
+    }
+    fn visit_local(&mut self, l: &'ast syn::Local) {
+        if let Some(init) = &l.init {
+            if init.diverge.is_some() && toks(&init.expr) == self.scrutinee {
+                self.from_pat(&l.pat);
+            }
+        }
+        syn::visit::visit_local(self, l);
+    }
+    fn visit_expr_match(&mut self, m: &'ast syn::ExprMatch) {
+        if toks(&m.expr) == self.scrutinee {
+            for a in &m.arms {
+                self.from_pat(&a.pat);
+            }
+        }
+        syn::visit::visit_expr_match(self, m);
+    }
+}
+
+fn some_binder(fname: &str, f: &syn::ImplItemFn, scrutinee: &str) -> Result<String, String> {
+    let mut b = SomeBinders { scrutinee: scrutinee.to_string(), names: vec![] };
+    b.visit_block(&f.block);
+    b.names.dedup();
+    if b.names.len() != 1 {
+        return Err(format!("{fname}: expected exactly one `Some(x)` binding of `{scrutinee}`, found {:?}", b.names));
+    }
+    Ok(b.names.remove(0))
+}
+
+/// the `if <x>.len() == 1 { .. }` blocks of a function
+struct SingleIfs<'a> {
+    v: Vec<&'a syn::Block>,
+    bad: Vec<String>,
+}
+impl<'ast> Visit<'ast> for SingleIfs<'ast> {
+    fn visit_expr_if(&mut self, i: &'ast syn::ExprIf) {
+        if let syn::Expr::Binary(b) = &*i.cond {
+            let (l, r) = (toks(&b.left), toks(&b.right));
+            let op = quote::ToTokens::to_token_stream(&b.op).to_string();
+            let len_side = |s: &str| s.ends_with(".len()") && is_ident_like(s.trim_end_matches(".len()"));
+            if (len_side(&l) && r == "1") || (len_side(&r) && l == "1") {
+                if op == "==" {
+                    self.v.push(&i.then_branch);
+                } else {
+                    self.bad.push(op);
+                }
+            }
+        }
+        syn::visit::visit_expr_if(self, i);
+    }
+}
+
+/// what the single-key block does with `on_going_fetches` (extracted helpers followed one level)
+struct FastPath<'f> {
+    file: &'f syn::File,
+    depth: u32,
+    cond: u32, // nesting inside if / match / closure / loop
+    guarded: u32,
+    guarded_without_insert: u32,
+    direct_unconditional: u32,
+    direct_conditional: u32,
+    contains_key: u32,
+}
+impl<'f> FastPath<'f> {
+    fn vacant(&mut self, pat: &syn::Pat, body_toks: &str) {
+        let t = quote::ToTokens::to_token_stream(pat).to_string().replace(' ', "");
+        let inner = t
+            .strip_prefix("Entry::Vacant(")
+            .or_else(|| t.strip_prefix("hash_map::Entry::Vacant("))
+            .and_then(|x| x.strip_suffix(')'));
+        if let Some(id) = inner {
+            if is_ident_like(id) && body_toks.contains(&format!("{id}.insert(")) {
+                self.guarded += 1;
+            } else {
+                self.guarded_without_insert += 1;
+            }
+        }
+    }
+}
+impl<'ast, 'f> Visit<'ast> for FastPath<'f> {
+    fn visit_expr_if(&mut self, i: &'ast syn::ExprIf) {
+        if let syn::Expr::Let(l) = &*i.cond {
+            if toks(&l.expr).starts_with("self.on_going_fetches.entry(") {
+                let body = quote::ToTokens::to_token_stream(&i.then_branch).to_string().replace(' ', "");
+                self.vacant(&l.pat, &body);
+            }
+        }
+        self.cond += 1;
+        syn::visit::visit_expr_if(self, i);
+        self.cond -= 1;
+    }
+    fn visit_expr_match(&mut self, m: &'ast syn::ExprMatch) {
+        if toks(&m.expr).starts_with("self.on_going_fetches.entry(") {
+            for a in &m.arms {
+                let body = toks(&a.body);
+                self.vacant(&a.pat, &body);
+            }
+        }
+        self.cond += 1;
+        syn::visit::visit_expr_match(self, m);
+        self.cond -= 1;
+    }
+    fn visit_expr_closure(&mut self, c: &'ast syn::ExprClosure) {
+        self.cond += 1;
+        syn::visit::visit_expr_closure(self, c);
+        self.cond -= 1;
+    }
+    fn visit_expr_for_loop(&mut self, c: &'ast syn::ExprForLoop) {
+        self.cond += 1;
+        syn::visit::visit_expr_for_loop(self, c);
+        self.cond -= 1;
+    }
+    fn visit_expr_while(&mut self, c: &'ast syn::ExprWhile) {
+        self.cond += 1;
+        syn::visit::visit_expr_while(self, c);
+        self.cond -= 1;
+    }
+    fn visit_expr_method_call(&mut self, m: &'ast syn::ExprMethodCall) {
+        if toks(&m.receiver) == "self.on_going_fetches" {
+            match m.method.to_string().as_str() {
+                "insert" => {
+                    if self.cond == 0 {
+                        self.direct_unconditional += 1
+                    } else {
+                        self.direct_conditional += 1
+                    }
+                }
+                "contains_key" | "get" | "get_mut" => self.contains_key += 1,
+                _ => {}
+            }
+        }
+        if self.depth == 0 {
+            if let Some(h) = self_call(m).and_then(|n| helper_fn(self.file, &n)) {
+                self.depth = 1;
+                self.visit_block(&h.block);
+                self.depth = 0;
+            }
+        }
+        syn::visit::visit_expr_method_call(self, m);
+    }
+}
+
+/// how the skip test of the first loop of `add_keys` consults `locally_stored_keys`
+#[derive(Default)]
+struct HeldTest {
+    rt: String, // the loop variable holding the advertised record type
+    contains_key: u32,
+    get_typed: u32,
+    get_other: u32,
+}
+impl<'ast> Visit<'ast> for HeldTest {
+    fn visit_expr_method_call(&mut self, m: &'ast syn::ExprMethodCall) {
+        let recv = toks(&m.receiver);
+        let meth = m.method.to_string();
+        if recv == "locally_stored_keys" && meth == "contains_key" {
+            self.contains_key += 1;
+        }
+        if recv.starts_with("locally_stored_keys.get(") && !recv["locally_stored_keys.get(".len()..].contains(").") {
+            // locally_stored_keys.get(..).is_some_and(|(_, t)| t == &record_type)  /  .map_or(false, |..| ..)  /  .is_some_and(|(_, t)| &record_type == t)
+            let closure = match meth.as_str() {
+                "is_some_and" if m.args.len() == 1 => m.args.first(),
+                "map_or" if m.args.len() == 2 && toks(&m.args[0]) == "false" => m.args.iter().nth(1),
+                _ => None,
+            };
+            let mut ok = false;
+            if let Some(syn::Expr::Closure(c)) = closure {
+                let mut body: &syn::Expr = &c.body;
+                while let syn::Expr::Block(b) = body {
+                    if b.block.stmts.len() == 1 {
+                        if let syn::Stmt::Expr(e, None) = &b.block.stmts[0] {
+                            body = e;
+                            continue;
+                        }
+                    }
+                    break;
+                }
+                if let syn::Expr::Binary(b) = body {
+                    let op = quote::ToTokens::to_token_stream(&b.op).to_string();
+                    let (l, r) = (toks(&b.left), toks(&b.right));
+                    let pat = c.inputs.iter().map(|p| quote::ToTokens::to_token_stream(p).to_string()).collect::<Vec<_>>().join(" ");
+                    let bound = |s: &str| is_ident_like(s) && pat.split(|ch: char| !(ch.is_alphanumeric() || ch == '_')).any(|w| w == bare(s));
+                    let is_rt = |s: &str| is_ident_like(s) && bare(s) == self.rt;
+                    if op == "==" && ((bound(&l) && is_rt(&r)) || (bound(&r) && is_rt(&l))) {
+                        ok = true;
+                    }
+                }
+            }
+            if ok {
+                self.get_typed += 1;
+            } else {
+                self.get_other += 1;
+            }
+        } else if recv == "locally_stored_keys" && meth == "get" {
+            // counted through its consumer above; a bare `.get(..)` that is not consumed by a recognised test:
+            // detected by get_other staying 0 while get_typed is 0 as well (see caller)
+        }
+        syn::visit::visit_expr_method_call(self, m);
+    }
+}
+
+/// the `if <cond> { continue; }` tests directly inside `for (addr, record_type) in incoming_keys { .. }`
+fn skip_conditions<'a>(add: &'a syn::ImplItemFn) -> Result<(String, Vec<&'a syn::Expr>), String> {
+    struct Loops<'a>(Vec<&'a syn::ExprForLoop>);
+    impl<'ast> Visit<'ast> for Loops<'ast> {
+        fn visit_expr_for_loop(&mut self, l: &'ast syn::ExprForLoop) {
+            if toks(&l.expr) == "incoming_keys" {
+                self.0.push(l);
+            }
+            syn::visit::visit_expr_for_loop(self, l);
+        }
+    }
+    let mut ls = Loops(vec![]);
+    ls.visit_block(&add.block);
+    if ls.0.len() != 1 {
+        return Err(format!("add_keys: expected one `for .. in incoming_keys` loop, found {}", ls.0.len()));
+    }
+    let l = ls.0[0];
+    let rt = match &*l.pat {
+        syn::Pat::Tuple(t) if t.elems.len() == 2 => {
+            let s = quote::ToTokens::to_token_stream(&t.elems[1]).to_string().replace(' ', "");
+            if !is_ident_like(&s) {
+                return Err(format!("add_keys: unexpected loop pattern {s}"));
+            }
+            s
+        }
+        p => return Err(format!("add_keys: unexpected loop pattern {}", quote::ToTokens::to_token_stream(p))),
+    };
+    let mut conds = vec![];
+    for st in &l.body.stmts {
+        if let syn::Stmt::Expr(syn::Expr::If(i), _) = st {
+            let then = quote::ToTokens::to_token_stream(&i.then_branch).to_string().replace(' ', "");
+            if then == "{continue;}" && i.else_branch.is_none() {
+                conds.push(&*i.cond);
+            }
+        }
+    }
+    Ok((rt, conds))
 }
 
 fn lean_cmp(name: &str, doc: &str, op: &str) -> Result<String, String> {
@@ -138,37 +472,105 @@ pub fn generate(repo: &PathBuf) -> Result<String, String> {
     let fetch = secs("FETCH_TIMEOUT")?;
     let pending = secs("PENDING_TIMEOUT")?;
 
+    let now = |x: &str| x == "Instant::now()";
     let add = impl_fn(&file, "ReplicationFetcher", None, "add_keys")?;
-    let b = bins(add);
-    let range_op = find_cmp("add_keys/range", &b, &|l| l.starts_with("convert_distance_to_u256("), &|r| r.contains("distance_range"), 1)?;
-    let far_op = find_cmp("add_keys/farthest", &b, &|l| l.contains(".distance("), &|r| r == "farthest_distance", 1)?;
-    let alive_op = find_cmp("add_keys/pending", &b, &|l| l == "*time_out", &|r| r == "Instant::now()", 1)?;
-    let single_op = find_cmp("add_keys/single", &b, &|l| l == "new_incoming_keys.len()", &|r| r == "1", 1)?;
-    if single_op != "==" {
-        return Err(format!("add_keys: single-key fast path guard is `{single_op} 1`, expected `== 1`"));
+    let b = bins(&file, add);
+    // `convert_distance_to_u256(dist) OP *distance_range` (either way round)
+    let range_op = find_cmp("add_keys/range", &b, &|l| l.starts_with("convert_distance_to_u256(") && l.ends_with(')'), &|r| is_ident_like(r), 1)?;
+    // `dist OP farthest` where `farthest` is bound by `Some(x) = self.farthest_acceptable_distance`
+    let far_id = some_binder("add_keys/farthest", add, "self.farthest_acceptable_distance")?;
+    let far_op = find_cmp("add_keys/farthest", &b, &|l| l.contains(".distance("), &|r| is_ident_like(r) && bare(r) == far_id, 1)?;
+    // `*deadline OP Instant::now()` (either way round) in the sweep of `to_be_fetched`
+    let alive_op = find_cmp("add_keys/pending", &b, &|l| is_ident_like(l), &now, 1)?;
+    // the single-key fast path: `if <list>.len() == 1 { .. }`
+    let mut singles = SingleIfs { v: vec![], bad: vec![] };
+    singles.visit_block(&add.block);
+    if !singles.bad.is_empty() || singles.v.len() != 1 {
+        return Err(format!(
+            "add_keys: expected exactly one `if <list>.len() == 1` fast path, found {} (other operators: {:?})",
+            singles.v.len(),
+            singles.bad
+        ));
     }
+    let mut fp = FastPath { file: &file, depth: 0, cond: 0, guarded: 0, guarded_without_insert: 0, direct_unconditional: 0, direct_conditional: 0, contains_key: 0 };
+    fp.visit_block(singles.v[0]);
+    let fast_checks_ongoing = if fp.guarded == 1 && fp.guarded_without_insert == 0 && fp.direct_unconditional == 0 && fp.direct_conditional == 0 {
+        // insert only through `Entry::Vacant(e)` of `self.on_going_fetches.entry(..)` (if-let or match, inline or in a helper)
+        true
+    } else if fp.guarded == 0 && fp.guarded_without_insert == 0 && fp.contains_key == 0 && fp.direct_unconditional == 1 && fp.direct_conditional == 0 {
+        // known alternative: an unconditional `self.on_going_fetches.insert(..)`
+        false
+    } else {
+        return Err(format!(
+            "add_keys: single-key fast path touches on_going_fetches in an unrecognised way (vacant-guarded inserts {}, vacant without insert {}, unconditional inserts {}, conditional inserts {}, lookups {})",
+            fp.guarded, fp.guarded_without_insert, fp.direct_unconditional, fp.direct_conditional, fp.contains_key
+        ));
+    };
+    // the locally-stored test of the first loop
+    let (rt, conds) = skip_conditions(add)?;
+    let mut ht = HeldTest { rt, ..Default::default() };
+    for c in &conds {
+        ht.visit_expr(c);
+    }
+    let all_uses = quote::ToTokens::to_token_stream(&add.block).to_string().replace(' ', "").matches("locally_stored_keys.").count() as u32;
+    let skip_same_type_only = if ht.get_typed == 1 && ht.get_other == 0 && ht.contains_key == 0 && all_uses == 1 {
+        true
+    } else if ht.contains_key == 1 && ht.get_typed == 0 && ht.get_other == 0 && all_uses == 1 {
+        false
+    } else {
+        return Err(format!(
+            "add_keys: the locally_stored_keys test of the skip condition has an unrecognised shape (typed get {}, other get {}, contains_key {}, uses in add_keys {})",
+            ht.get_typed, ht.get_other, ht.contains_key, all_uses
+        ));
+    };
+
     let prune = impl_fn(&file, "ReplicationFetcher", None, "prune_expired_keys_and_slow_nodes")?;
-    let exp_op = find_cmp("prune/expired", &bins(prune), &|l| l == "*time_out", &|r| r == "Instant::now()", 1)?;
+    let exp_op = find_cmp("prune/expired", &bins(&file, prune), &|l| is_ident_like(l), &now, 1)?;
     let full = impl_fn(&file, "ReplicationFetcher", None, "set_farthest_on_full")?;
-    let fb = bins(full);
-    let noshrink_op = find_cmp("set_farthest_on_full/return", &fb, &|l| l == "new_farthest_distance", &|r| r == "old_farthest_distance", 1)?;
-    let keep_op = find_cmp("set_farthest_on_full/retain", &fb, &|l| l.contains(".distance("), &|r| r == "new_farthest_distance", 2)?;
+    let fb = bins(&file, full);
+    let old_id = some_binder("set_farthest_on_full/old", full, "self.farthest_acceptable_distance")?;
+    // `new OP old`: the other side of the only comparison with `old`
+    let mut new_ids: Vec<String> = fb
+        .iter()
+        .filter_map(|(l, _, r)| {
+            if bare(r) == old_id && is_ident_like(l) {
+                Some(bare(l).to_string())
+            } else if bare(l) == old_id && is_ident_like(r) {
+                Some(bare(r).to_string())
+            } else {
+                None
+            }
+        })
+        .collect();
+    new_ids.dedup();
+    if new_ids.len() != 1 {
+        return Err(format!("set_farthest_on_full: expected one comparison `new OP {old_id}`, found {new_ids:?}"));
+    }
+    let new_id = new_ids.remove(0);
+    let noshrink_op = find_cmp("set_farthest_on_full/return", &fb, &|l| is_ident_like(l) && bare(l) == new_id, &|r| is_ident_like(r) && bare(r) == old_id, 1)?;
+    let keep_op = find_cmp("set_farthest_on_full/retain", &fb, &|l| l.contains(".distance("), &|r| is_ident_like(r) && bare(r) == new_id, 2)?;
+    let full_src = quote::ToTokens::to_token_stream(&full.block).to_string().replace(' ', "");
+    if full_src.matches("self.to_be_fetched.retain(").count() != 1 || full_src.matches("self.on_going_fetches.retain(").count() != 1 {
+        return Err("set_farthest_on_full: expected one retain on to_be_fetched and one on on_going_fetches".into());
+    }
     let next = impl_fn(&file, "ReplicationFetcher", None, "next_keys_to_fetch")?;
-    let nb = bins(next);
+    let nb = bins(&file, next);
     // the three cap comparisons are: `>=` (early return), `<` (loop guard), `>=` (break)
     let caps: Vec<String> = nb
         .iter()
-        .filter(|(l, _, r)| l == "self.on_going_fetches.len()" && r == "MAX_PARALLEL_FETCH")
-        .map(|(_, op, _)| op.clone())
+        .filter_map(|(l, op, r)| {
+            if l == "self.on_going_fetches.len()" && r == "MAX_PARALLEL_FETCH" {
+                Some(op.clone())
+            } else if r == "self.on_going_fetches.len()" && l == "MAX_PARALLEL_FETCH" {
+                Some(flip(op))
+            } else {
+                None
+            }
+        })
         .collect();
     if caps != vec![">=".to_string(), "<".to_string(), ">=".to_string()] {
         return Err(format!("next_keys_to_fetch: cap comparisons are {caps:?}, expected [\">=\", \"<\", \">=\"]"));
     }
-    // fast path must consult on_going_fetches (Entry::Vacant on on_going_fetches.entry)
-    let add_src = quote::ToTokens::to_token_stream(&add.block).to_string().replace(' ', "");
-    let fast_checks_ongoing = add_src.contains("ifletEntry::Vacant(entry)=self.on_going_fetches.entry(");
-    // the locally-stored test compares the held record type with the advertised one
-    let skip_same_type_only = add_src.contains("locally_stored_keys.get(&key).is_some_and(") && !add_src.contains("locally_stored_keys.contains_key(&key)");
 
     let mut s = header(rel);
     s.push_str("namespace SafeNet.Gen.Fetcher\n");
